@@ -226,11 +226,15 @@ func (a vkAsk) fromCache() bool {
 			return true
 		}
 	}
-	return a.Packets == 0 && a.Latched == "" && !a.DeadlineMode
+	// no EDE at all, no upstream packet, no local cause: nothing but shared state can have produced it
+	return a.Packets == 0 && a.Latched == "" && !a.DeadlineMode && len(a.EDE) == 0
 }
 
 func (w *vkWorld) ask(pl *h_rpipe.Pipeline, qname string, o h_rpipe.AskOpt) vkAsk {
 	before := w.sim.Count("")
+	if o.WallCap == 0 {
+		o.WallCap = 10 * vkQueryTimeout // also for the pipelines with a query timeout of a few tens of ms
+	}
 	r := pl.Ask(pl.Query(qname, dns.TypeA, true, true), "tcp", o)
 	w.c.Add("evaluations", 1)
 	a := vkAsk{Returned: r.Returned, Writes: r.Writes, Elapsed: r.Elapsed, DeadlineMode: pl.Cfg.QueryTimeout < time.Second}
@@ -439,6 +443,15 @@ func (w *vkWorld) runOnce(cs vkCase) vkResult {
 	}
 	if !a.Settled || !f.Settled || !s.Settled {
 		res.Disturbed = true
+	}
+	// nothing scripted here keeps an ask busy for more than ~1.5 s (4 dropping servers, staggered): an ask
+	// that ran into the 3 s query timeout was starved by the machine
+	if cs.Mode != "deadline" {
+		for _, x := range []vkAsk{a, f, s} {
+			if x.Elapsed > vkQueryTimeout*8/10 {
+				res.Disturbed = true
+			}
+		}
 	}
 	return res
 }
